@@ -41,7 +41,7 @@ def run_worker(jobs, hashseed):
 
 def plan(ctx, only=None):
     tier, rng = ctx["tier"], ctx["rng"]
-    k = 40 if tier == "quick" else 300
+    k = 100 if tier == "quick" else 600
     nseeds = 3 if tier == "quick" else 8
     fams = C.Labels.FAMILIES
     jobs, meta = [], []
